@@ -119,8 +119,9 @@ def check_order(c, repo):
     cl = cfg_nodes_with_call(f, lambda k: callee_last(k) == 'close' and (ctext(k.func.value, f) or '').endswith('ptyproc'))
     al = cfg_nodes_with_call(f, lambda k: callee_last(k) == 'isalive' and ctext(k.func.value, f) == 'self')
     c.need(len(cl) == 1, 'spawn.close: ptyproc.close() not found')
-    ok = len(al) >= 1 and g.dominated_by(al[0][0], {cl[0][0]})[0] and g.dominated_by(g.exit, {al[0][0]})[0]
-    c.check(ok, f, al[0][1] if al else cl[0][1], 'close() refreshes the status via isalive() after the pty was closed, on every path', tag='close-refresh')
+    after = [a for a in al if g.dominated_by(a[0], {cl[0][0]})[0]]
+    ok = bool(after) and g.must_pass(cl[0][0], {g.exit}, set(a[0] for a in after), skip_labels=('exc',))[0]
+    c.check(ok, f, al[0][1] if al else cl[0][1], 'whenever close() closes the pty it refreshes the status via isalive() afterwards', tag='close-refresh')
     f = repo.func('pty_spawn:spawn.read_nonblocking')
     hs = [h for h in iter_nodes(f.node) if isinstance(h, ast.ExceptHandler) and norm(h.type) == 'EOF']
     c.need(len(hs) >= 2, 'spawn.read_nonblocking: EOF handlers not found')
